@@ -21,23 +21,37 @@ Proof. exact (sweep1 panic_sites classified ledger_complete). Qed.
 Lemma indent_shape : get_indent_shape_ok = true /\ indent_is_nl_spaces = true.
 Proof. vm_compute. split; reflexivity. Qed.
 
-Lemma indent_safe : forall c len, (len < indent_static_len)%N -> get_indent c len <> IndentPanic.
+Lemma indent_nonempty : (indent_static_len =? 0)%N = false.
+Proof. vm_compute. reflexivity. Qed.
+
+(* since the fix the slice end is capped: get_indent never panics, for every length *)
+Lemma indent_safe : forall c len, get_indent c len <> IndentPanic.
 Proof.
-  intros c len H. unfold get_indent. destruct c; [discriminate|].
-  apply N.ltb_lt in H. rewrite H. discriminate.
+  intros c len. unfold get_indent. destruct c; [discriminate|].
+  rewrite indent_nonempty. discriminate.
 Qed.
 
-Lemma indent_compressed_safe : forall len, get_indent true len = IndentOk 0.
-Proof. reflexivity. Qed.
+Lemma min_pred_le : forall s len : N, s <> 0%N -> (N.min len (s - 1) + 1 <= s)%N.
+Proof. intros s len Hs. pose proof (N.le_min_r len (s - 1)). lia. Qed.
 
-Lemma indent_refuted : exists len, get_indent false len = IndentPanic.
-Proof. exists indent_static_len. unfold get_indent. rewrite N.ltb_irrefl. reflexivity. Qed.
-
-(* nesting depth d never panics while 2d+2 < |INDENT| *)
-Lemma nesting_safe : forall c d, (2 * d + 2 < indent_static_len)%N ->
-  model_outcome (mkCase 1 c d 0) = Some 0%Z.
+Lemma indent_bounded : forall c len n, get_indent c len = IndentOk n -> (n <= indent_static_len)%N.
 Proof.
-  intros c d H. unfold model_outcome. cbn [c_family c_compressed c_depth Z.eqb].
-  unfold indent_of_depth, get_indent. destruct c; [reflexivity|].
-  apply N.ltb_lt in H. rewrite H. reflexivity.
+  intros c len n. unfold get_indent. destruct c.
+  - intros H. inversion H. apply N.le_0_l.
+  - rewrite indent_nonempty. intros H.
+    assert (E : n = (N.min len (indent_static_len - 1) + 1)%N) by congruence.
+    rewrite E. apply min_pred_le. apply N.eqb_neq. exact indent_nonempty.
+Qed.
+
+Lemma indent_exact_inside : forall len, (len < indent_static_len)%N -> get_indent false len = IndentOk (len + 1).
+Proof.
+  intros len H. unfold get_indent. rewrite indent_nonempty.
+  rewrite N.min_l by lia. reflexivity.
+Qed.
+
+(* nesting never panics, at any depth *)
+Lemma nesting_safe : forall c d, model_outcome (mkCase 1 c d 0) = Some 0%Z.
+Proof.
+  intros c d. unfold model_outcome. cbn [c_family c_compressed c_depth Z.eqb].
+  unfold get_indent. destruct c; [reflexivity|]. rewrite indent_nonempty. reflexivity.
 Qed.
